@@ -25,6 +25,7 @@ import TTModel.Reshape
 import TTModel.Scalar
 import TTModel.AmenStep
 import TTModel.GradApi
+import TTModel.Maxvol
 /-!
 # Line-protocol driver: one operation per input line, one canonical outcome per output line.
 
@@ -677,6 +678,14 @@ def run : PM String := do
       let n ← nat; let rmax ← nat
       let bs ← many (n - 1) nat
       pure ("sc " ++ toString (Amen.rankByResidual (fun r => bs.getD (r - 1) 0 == 1) n rmax))
+  | "maxvol" => do
+      -- `maxvol rows cols nP P… nev (done i j)…`
+      let rows ← nat; let cols ← nat
+      let nP ← nat; let P ← many nP nat
+      let nev ← nat
+      let ev ← many nev (do let dn ← nat; let i ← nat; let j ← nat; pure (dn == 1, i, j))
+      let r := Maxvol.maxvol rows cols P.toList ev.toList
+      pure ("il " ++ toString r.length ++ " " ++ " ".intercalate (r.map toString))
   | _ => throw s!"op? {op}"
 
 def processLine (line : String) : String :=
